@@ -79,14 +79,22 @@ func zzC02ParrotsValid() {
 //verif:harness C03 parrot_matches_spec unwind=4000 instrs=400000000 paths=60000
 //verif:stub (*math/rand.Rand).Shuffle zzStubShuffleOneSwap
 //verif:expect end
-//verif:doc Every predefined parrot: the wire hello equals an independent reference encoding of a fresh zzRefSpec(id) — legacy_version min(max,1.2), cipher suites and compression, extension code-point sequence (same multiset with GREASE/padding/PSK fixed for shuffling parrots) and every extension body — modulo exactly the per-connection material C03 lists. All random bytes symbolic; Config.NextProtos unset or {http/1.1}; for shuffling parrots the shuffle performs zero or one arbitrary legal swap.
+//verif:doc Every predefined parrot: the wire hello equals an independent reference encoding of a fresh zzRefSpec(id) — legacy_version min(max,1.2), cipher suites and compression, extension code-point sequence (same multiset with GREASE/padding/PSK fixed for shuffling parrots) and every extension body — modulo exactly the per-connection material C03 lists. All random bytes symbolic; Config.NextProtos unset or {http/1.1}; Config.MinVersion/MaxVersion unset, MaxVersion=1.1, 1.0..1.2, or MinVersion=1.3 (the caller's bounds must not alter the parrot's bytes); for shuffling parrots the shuffle performs zero or one arbitrary legal swap.
 func zzC03ParrotMatchesSpec() {
 	p := zzChooseParrot()
 	cfg := zzConfig("example.com")
 	cfg.OmitEmptyPsk = true
-	if verifBool("caller-nextprotos") {
-		// the caller's NextProtos must not leak into a parrot's extension bodies
+	// neither the caller's NextProtos nor the caller's version bounds may change
+	// what a parrot sends
+	switch verifChoice("caller-config", 5) {
+	case 1:
 		cfg.NextProtos = []string{"http/1.1"}
+	case 2:
+		cfg.MaxVersion = VersionTLS11
+	case 3:
+		cfg.MinVersion, cfg.MaxVersion = VersionTLS10, VersionTLS12
+	case 4:
+		cfg.MinVersion = VersionTLS13
 	}
 	uc, _, err := zzBuild(p.id, cfg)
 	verifAssertClass(err == nil, "build-succeeds", p.name)
